@@ -308,8 +308,10 @@ class H5Group:
         grp = self.group
         if isinstance(name, str):
             # the name attribute of the copy is written after the copy was
-            # made: plain text, whatever subclass of str was given
+            # made: plain text, whatever subclass of str was given, and
+            # text that can be stored
             name = str(name)
+            util.check_text_storable(name)
         dest.open_group(cls, create=True)
         dest_grp = dest.group[cls]
         grp.copy(source=source, dest=dest_grp, name=name, shallow=shallow)
